@@ -129,6 +129,8 @@ type World struct {
 	nodes   []*TNode
 	byHash  map[util.Hash]*TNode
 	tsBase  uint64
+	forceKind   int // when non-zero genTxs produces one transaction of this kind by wallet forceWallet (if possible)
+	forceWallet int
 }
 
 var sharedBC *blockchain.Blockchain
